@@ -66,6 +66,27 @@ pub fn check_message(m: &ErrMsg, bytes: &[u8], tr: &Truth) -> Result<&'static st
             if row != want {
                 return Err(("C07:rdh-context-row-mismatch".into(), format!("`current :` row `{row}` != decode of the 64 bytes at the offset `{want}`")));
             }
+            // `previous:` rows quote earlier RDHs handled by the same validator: each must be the decode of an RDH of the
+            // chain before this one; and when the chain has an earlier RDH with the same link id and FEE id (one that is in
+            // the same validator whatever the mode and passes every filter this one passes) a previous row must be there,
+            // the last one quoting an RDH that shares the link id or the FEE id
+            let prev: Vec<String> = m.text.lines().filter_map(|l| l.trim_start().strip_prefix("previous:").map(|x| x.chars().filter(|c| !c.is_whitespace()).collect())).collect();
+            let earlier: Vec<&Rdh> = {
+                let mut v: Vec<(&u64, &Rdh)> = tr.rdh_starts.iter().filter(|(o, _)| **o < m.offset).collect();
+                v.sort_by_key(|(o, _)| **o);
+                v.into_iter().map(|(_, r)| r).collect()
+            };
+            for p in &prev {
+                if !earlier.iter().any(|e| e.view_tokens().concat() == *p) {
+                    return Err(("C07:previous-row-not-in-input".into(), format!("`previous:` row `{p}` is not the decode of any RDH before {:#X}", m.offset)));
+                }
+            }
+            if earlier.iter().any(|e| e.link_id == r.link_id && e.fee_id == r.fee_id) {
+                let ok = prev.last().map(|p| earlier.iter().any(|e| (e.link_id == r.link_id || e.fee_id == r.fee_id) && e.view_tokens().concat() == *p)).unwrap_or(false);
+                if !ok {
+                    return Err(("C07:previous-row-missing".into(), format!("RDH message at {:#X}: no `previous:` row of the same link / FEE although the chain has one", m.offset)));
+                }
+            }
         }
         return Ok("rdh");
     }
